@@ -28,7 +28,7 @@ Script (JSON-able dict):
    "seed": n                  # mixed with VERIF_SEED into random.seed() (jitter draw)
    "life": {"startup": complete | failed | failed-keeps-running | raise | raise-after-recv |
                        return | return-after-recv | return-after-complete | hang | unknown,
-            "shutdown": complete | failed | raise | hang | return,
+            "shutdown": complete | complete-then-recv | failed | raise | hang | return,
             "state": [[key, val], ...]     # written into scope["state"] during startup
             "probe": [key, ...]            # read from the lifespan state at shutdown
             "gate": bool                   # wait for gate "life" before answering startup
@@ -271,6 +271,9 @@ class ScriptedApp:
                 await run.gate("life_sd").wait()
             if sd == "complete":
                 await self._lsend(send, "lifespan.shutdown.complete")
+            elif sd == "complete-then-recv":  # keeps listening: a second lifespan.shutdown would be seen
+                await self._lsend(send, "lifespan.shutdown.complete")
+                await self._lrecv(receive)
             elif sd == "failed":
                 await self._lsend(send, "lifespan.shutdown.failed")
             elif sd == "raise":
